@@ -490,6 +490,21 @@ func ruleR083(c *Ctx) {
 							c.OK(key, call.Pos(), "the producer returns as soon as the consumer answers false")
 							return true
 						}
+						// any other form (if yield(...) { more } with nothing behind it): on the edge taken for 'stop' no
+						// further call or delegation of the consumer is reachable
+						if stoppedIsThen || stoppedIsElse {
+							if cb, _, ok := g.Pos(ifs.Cond); ok && len(cb.Succs) == 2 {
+								stopSucc := cb.Succs[1]
+								if stoppedIsThen {
+									stopSucc = cb.Succs[0]
+								}
+								again, _ := g.PathFromBlock(stopSucc, func(z ast.Node) bool { return containsNode(z, isYieldCall) || containsNode(z, isDelegation) }, nil, nil)
+								if !again {
+									c.OK(key, call.Pos(), "once the consumer answered false no further call of it is reachable")
+									return true
+								}
+							}
+						}
 						c.Violation(key, call.Pos(), "the consumer's answer is tested, but the branch taken for 'stop' does not return: the producer keeps producing (and evaluating closures) after the consumer has stopped")
 						return true
 					}
